@@ -419,6 +419,8 @@ pub struct Known {
     pub classes: Vec<String>,
     /// all of these substrings must occur in the site
     pub site_all: Vec<String>,
+    /// none of these substrings may occur in the site (dimensions the finding was repaired for)
+    pub site_none: Vec<String>,
     /// if non-empty: the site must be one of these exactly (the specific failing inputs)
     pub sites: Vec<String>,
     pub what: String,
@@ -438,6 +440,7 @@ pub fn load_known(path: &str) -> Vec<Known> {
             properties: e["properties"].as_array().into_iter().flatten().filter_map(|x| x.as_str().map(|s| s.to_string())).collect(),
             classes: e["classes"].as_array().into_iter().flatten().filter_map(|x| x.as_str().map(|s| s.to_string())).chain(e["class"].as_str().map(|s| s.to_string())).collect(),
             site_all: e["site_all"].as_array().into_iter().flatten().filter_map(|x| x.as_str().map(|s| s.to_string())).collect(),
+            site_none: e["site_none"].as_array().into_iter().flatten().filter_map(|x| x.as_str().map(|s| s.to_string())).collect(),
             sites: e["sites"].as_array().into_iter().flatten().filter_map(|x| x.as_str().map(|s| s.to_string())).collect(),
             what: e["what"].as_str().unwrap_or("").to_string(),
             fixed: e["status"].as_str() == Some("fixed"),
@@ -447,7 +450,7 @@ pub fn load_known(path: &str) -> Vec<Known> {
 }
 
 pub fn match_known<'a>(known: &'a [Known], property: &str, class: &str, site: &str) -> Option<&'a Known> {
-    known.iter().find(|k| !k.fixed && k.properties.iter().any(|p| p == property) && k.classes.iter().any(|c| c == class) && k.site_all.iter().all(|s| site.contains(s.as_str())) && (k.sites.is_empty() || k.sites.iter().any(|s| s == site)))
+    known.iter().find(|k| !k.fixed && k.properties.iter().any(|p| p == property) && k.classes.iter().any(|c| c == class) && k.site_all.iter().all(|s| site.contains(s.as_str())) && !k.site_none.iter().any(|s| site.contains(s.as_str())) && (k.sites.is_empty() || k.sites.iter().any(|s| s == site)))
 }
 
 // ------------------------------------------------------------------ check = families for one property
